@@ -18,6 +18,13 @@ inductive ExitEffect where
   | setFlag | logInTry | resetFlagInFinally | onerrorIfNotNone | returnNotReraise
   deriving DecidableEq, Repr
 
+/-- the test that guards the `onerror(value)` call: `onerror is not None` calls every callable that was
+    passed; a bare `if onerror:` would skip callables that are falsy (objects with `__len__() == 0` or
+    `__bool__() is False` – error registries, callable containers) -/
+inductive OnerrorTest where
+  | isNotNone | truthy
+  deriving DecidableEq, Repr
+
 /-- what sits inside `with catcher:` in a wrapper branch -/
 inductive Inner where
   | awaitCall        -- `return await function(*args, **kwargs)`
